@@ -7,7 +7,7 @@ property monitors on real traces -> on any broken obligation / disagreement sear
 input -> verdict + evidence."""
 import sys, os, json, random, shutil, time, re, traceback
 sys.path.insert(0, os.path.dirname(os.path.abspath(__file__)))
-import vlib, kapi, genapi, monitors, ksizes
+import vlib, kapi, genapi, monitors, ksizes, kcrypto
 
 TRUSTED_BASE = [
     'Coq 8.16.1 kernel (coqc, full .vo build); vm_compute used for reflection over regenerated tables and finite sweeps; no native_compute',
@@ -305,6 +305,65 @@ def check_C12(res, tier, seed):
     finish_proof_side(c, res, 'C12')
 
 
+def _kc_job(args):
+    fn, a = args[0], args[1:]
+    return getattr(kcrypto, fn)(*a)
+
+
+def run_kcrypto(c, res, pid, fn, n, seed, extra=(), stream='K-crypto'):
+    import multiprocessing
+    stats = {'sequences': 0, 'calls': 0, 'findings': 0, 'model_disagreements': 0, 'model_evaluations': 0, 'op_kinds': {}}
+    seen = set()
+    samples = []
+    reported = 0
+    with multiprocessing.Pool(16) as pool:
+        for out in pool.imap(_kc_job, [(fn, c.lib, c.harness['p11drv'], seed, i) + tuple(extra) for i in range(n)], chunksize=2):
+            tr = out['trace']
+            stats['sequences'] += 1
+            stats['calls'] += len(tr)
+            stats['model_evaluations'] += out.get('model_evals', 0)
+            for l, r in tr:
+                k = l.split()[0] + ('/' + l.split()[2].split(':')[0] if l.split()[0] in ('encinit', 'decinit', 'signinit', 'verifyinit', 'wrap', 'unwrap', 'derive', 'digestinit') and len(l.split()) > 2 else '')
+                stats['op_kinds'][k] = stats['op_kinds'].get(k, 0) + 1
+            seen.add(tuple((l.split()[0], l.split()[2][:12] if len(l.split()) > 2 else '', r.get('rv'), r.get('len')) for l, r in tr))
+            if len(samples) < 2:
+                samples.append([l[:90] + '  =>  ' + ' '.join('%s=%s' % (k, str(v)[:40]) for k, v in r.items() if k in ('rv', 'len', 'h')) for l, r in tr[8:40]])
+            for msg, j in out['findings']:
+                stats['findings'] += 1
+                if reported < 3:
+                    reported += 1
+                    res.violation('%s: %s' % (pid, msg), {'kind': 'reference', 'message': msg, 'ops': [l for l, _ in tr[:j + 1]],
+                                                         'results': [r.get('line', '').strip()[:300] for _, r in tr[max(0, j - 3):j + 1]], 'seed': seed, 'sequence': out['i']})
+            for msg, j in out.get('model_dis', []):
+                stats['model_disagreements'] += 1
+                if reported < 3 and not out['findings']:
+                    reported += 1
+                    res.violation('%s correspondence %s: %s' % (pid, stream, msg), {'kind': 'correspondence', 'stream': stream, 'difference': msg, 'ops': [l for l, _ in tr[:j + 1]], 'seed': seed, 'sequence': out['i'],
+                                  'names': 'the correspondence stream %s (coq/Crypto/Pad.v vs libsofthsm2.so) no longer checks' % stream}, no_input=True)
+    return stats, len(seen), samples
+
+
+def check_C10(res, tier, seed):
+    c = prepare('C10', res)
+    stats, distinct, samples = run_kcrypto(c, res, 'C10', 'seq_c10', 240 if tier == 'quick' else 6000, seed)
+    res.coverage.update({'evaluations': stats['calls'], 'distinct_nontrivial': distinct,
+                         'rule': 'per sequence 6-12 cases: AES ECB/CBC/CBC-PAD/CTR(16..128 counter bits)/GCM(IV 1..16 bytes, AAD, tag 4..16 bytes) single- vs multi-part (random splits incl. empty parts) vs the pure-Python reference, decryption of reference ciphertexts, GCM tampering of ciphertext/tag/IV/AAD; HMAC (MD5..SHA-512) and AES-CMAC sign/verify incl. flipped, truncated, extended, empty MACs; digests; RSA PKCS#1 v1.5 / hash-RSA / OAEP / PSS / raw against integer arithmetic with known keys; distinct = distinct call/result sequences',
+                         'samples': samples, 'k_crypto': stats, 'traces_validated_against_impl': stats['sequences'],
+                         'not_covered': 'DSA, ECDSA, EdDSA, DH, ECDH, X25519/448, DES3: no independent implementation in this sandbox'})
+    finish_proof_side(c, res, 'C10')
+
+
+def check_C13(res, tier, seed):
+    c = prepare('C13', res, extra_vo=['extract/ExtractPad.vo'])
+    paddrv = vlib.build_ocaml('paddrv', 'pad_model', 'paddrv.ml')
+    stats, distinct, samples = run_kcrypto(c, res, 'C13', 'seq_c13', 240 if tier == 'quick' else 6000, seed, extra=(paddrv,), stream='K-pad')
+    res.coverage.update({'evaluations': stats['calls'], 'distinct_nontrivial': distinct,
+                         'rule': 'per sequence 5-9 cases: C_WrapKey with AES_KEY_WRAP / AES_KEY_WRAP_PAD / AES_CBC_PAD (wrapping keys 16/24/32 bytes, wrapped lengths 1..72) compared byte-for-byte with RFC 3394/5649 / PKCS#7-CBC references, unwrap of library and reference blobs (value, type, LOCAL/NEVER_EXTRACTABLE/ALWAYS_SENSITIVE, check value), truncated / flipped / empty / extended blobs; RSA PKCS#1 v1.5 and OAEP wrapping; CONCATENATE_* and AES_{ECB,CBC}_ENCRYPT_DATA derivation with requested type/length; the extracted Coq padding/cutting model evaluated on the same inputs',
+                         'samples': samples, 'k_crypto': stats, 'traces_validated_against_impl': stats['sequences'],
+                         'not_covered': 'PKCS#8 content of wrapped private keys; DES key derivation (single DES needs the OpenSSL legacy provider); DH/ECDH shared secrets'})
+    finish_proof_side(c, res, 'C13')
+
+
 def kapi_check(pid, profile, monitor_name, rule, nq=400, nt=12000, nops=45):
     def f(res, tier, seed):
         c = prepare(pid, res)
@@ -317,7 +376,7 @@ def kapi_check(pid, profile, monitor_name, rule, nq=400, nt=12000, nops=45):
 
 
 RULE = 'model-guided random call sequences over 2 tokens and up to ~8 sessions (%s profile of tools/genapi.py); a trace is non-trivial when at least 3 calls after the prelude succeed; distinct = distinct (op, rv) sequences'
-CHECKS = {'C03': check_C03, 'C12': check_C12,
+CHECKS = {'C03': check_C03, 'C12': check_C12, 'C10': check_C10, 'C13': check_C13,
           'C01': kapi_check('C01', 'objects', 'monitor_c01', RULE % 'objects'),
           'C04': kapi_check('C04', 'pins', 'monitor_c03', RULE % 'pins'),
           'C11': kapi_check('C11', 'handles', 'monitor_c11', RULE % 'handles'),
